@@ -9,7 +9,7 @@
 EXTENDS Integers, Sequences, TLC, Json, IOUtils
 
 Rows == ndJsonDeserialize(IOEnv.VERIF_TRACE)   \* row (i-1)*N + j : [i, j, eq (0/1)]
-ASSUME TLCSet(5, Norm(Rows))
+ASSUME TLCSet(5, Rows)
 R == TLCGet(5)
 N == CHOOSE n \in 1..300 : n * n = Len(R)
 ASSUME \A k \in 1..Len(R) : R[k].i = ((k - 1) \div N) + 1 /\ R[k].j = ((k - 1) % N) + 1
